@@ -7,6 +7,7 @@ import GoSquare.Properties.C13
 import GoSquare.Properties.C15
 import GoSquare.Properties.C16
 import GoSquare.Properties.C18
+import GoSquare.Properties.C19
 import GoSquare.Properties.C20
 #print axioms GoSquare.C05.aligned_block_is_row_inner_node
 #print axioms GoSquare.C05.subtree_roots_are_row_inner_nodes
@@ -59,6 +60,18 @@ import GoSquare.Properties.C20
 #print axioms GoSquare.C18.validateForBlob_spec
 #print axioms GoSquare.C18.new_spec
 #print axioms GoSquare.C18.fromBytes_spec
+#print axioms GoSquare.C19.blobProto_roundtrip
+#print axioms GoSquare.C19.indexWrapper_roundtrip
+#print axioms GoSquare.C19.blobTxProto_roundtrip
+#print axioms GoSquare.C19.unmarshalIndexWrapper_marshal
+#print axioms GoSquare.C19.blob_roundtrip
+#print axioms GoSquare.C19.unmarshalBlobTx_marshal
+#print axioms GoSquare.C19.newBlob_accepts_iff
+#print axioms GoSquare.C19.blobFromProto_accepts_iff
+#print axioms GoSquare.C19.blobTx_is_not_indexWrapper
+#print axioms GoSquare.C19.indexWrapper_is_not_blobTx
+#print axioms GoSquare.Proto.parseFields_enc
+#print axioms GoSquare.readUvarint_uvarint
 #print axioms GoSquare.C20.lookup_returns_the_run
 #print axioms GoSquare.C20.sorted_decomposition
 #print axioms GoSquare.C20.lookup_on_sorted
